@@ -14,11 +14,13 @@ func init() {
 	register(&Check{
 		ID:  "C16",
 		Run: runC16,
-		Explanation: "Decides the boundary clause 'fails with the decode-limit error when the data is longer than L and never rejects data within the limit' at the places where the decision is taken: (R1 comparators) every return of filter.ErrDecodeLimitExceeded in pkg/filter lies on the edge of a comparison between a produced length and the limit (a value obtained from decodeLimit) whose relation on that edge is exactly `produced > limit` — or, in the byte-wise run-length writer, `limit == written` tested before the next byte is written; `>=` (rejects data of exactly L bytes) and any unrecognised form are reported; (R2 probe byte) baseFilter.copyDecoded reads through an io.LimitedReader whose N is `limit + 1`, the one extra byte that lets `len > limit` see an overrun (N = limit would silently truncate over-long data instead of failing), and guards the +1 against overflow by the `limit == maxInt64` exit; (R3 bounded mode) for maxLen >= 0 copyDecoded copies exactly maxLen bytes with io.CopyN and every decoder's DecodeLength hands its maxLen to copyDecoded / its row loop unchanged. NOT decided: that the produced length is computed correctly by each codec, the prefix property of bounded decoding, and 'reports that the data is too short'.",
+		Explanation: "Decides the boundary clause 'fails with the decode-limit error when the data is longer than L and never rejects data within the limit' at the places where the decision is taken: (R1 comparators) every return of filter.ErrDecodeLimitExceeded in pkg/filter lies on the edge of a comparison between a produced length and the limit (a value obtained from decodeLimit) whose relation on that edge is exactly `produced > limit` — or, in the byte-wise run-length writer, `limit == written` tested before the next byte is written; `>=` (rejects data of exactly L bytes) and any unrecognised form are reported; (R2 probe byte) baseFilter.copyDecoded reads through an io.LimitedReader whose N is `limit + 1`, the one extra byte that lets `len > limit` see an overrun (N = limit would silently truncate over-long data instead of failing), and guards the +1 against overflow by the `limit == maxInt64` exit; (R3 bounded mode) for maxLen >= 0 copyDecoded copies exactly maxLen bytes with io.CopyN and every decoder's DecodeLength hands its maxLen to copyDecoded / its row loop unchanged. (R4) in the decoders that write their output inside a loop after asking decodeLimit, every write is preceded within the same innermost loop iteration by a comparison involving the limit (a test hoisted out of the loop lets one run step over the limit, after which an equality test never fires); (R5) in StreamDict.decodeLength the bounded fi.DecodeLength(b, maxLen) is reached only for the last pipeline stage. NOT decided: that the produced length is computed correctly by each codec, the prefix property of bounded decoding, and 'reports that the data is too short'.",
 		Rules: []string{
 			"C16.R1 comparator shape at every ErrDecodeLimitExceeded return",
 			"C16.R2 LimitedReader N = limit+1 with overflow exit",
 			"C16.R3 bounded mode: io.CopyN(maxLen); maxLen handed on unchanged",
+			"C16.R4 per-iteration limit test in byte-wise producers (shared with C09.R2)",
+			"C16.R5 only the last pipeline stage is bounded",
 		},
 		Assumptions: []string{"io.LimitedReader / io.CopyN semantics", "decodeLimit returns maxLen when maxLen >= 0 and the configured limit otherwise (C09.R1 checks the plumbing)"},
 		Technique:   "edge-relation extraction on SSA (comparison operator normalised by operand order and branch taken), value-origin slices for the limit operand",
@@ -91,6 +93,12 @@ func runC16(c *Ctx) {
 			}
 		})
 	}
+	// ---- R4: per-byte producers test the limit in every iteration of the innermost writing loop (same rule as C09.R2)
+	r.MinInst["C16.R4"] = 2
+	checkProducingLoopsAs(c, "C16.R4")
+	// ---- R5: in a filter pipeline only the last stage is bounded
+	r.MinInst["C16.R5"] = 1
+	checkPipelineBoundLastStage(c)
 	// ---- R2 / R3 in copyDecoded
 	if fn := p.Func("pkg/filter.(baseFilter).copyDecoded"); fn == nil {
 		r.Bad("C16.R2", "pkg/filter.(baseFilter).copyDecoded", "anchor", "", "UNRESOLVED-ANCHOR")
@@ -308,4 +316,75 @@ func isLoopCarried(v ssa.Value) bool {
 		}
 	}
 	return false
+}
+
+// checkPipelineBoundLastStage (C16.R5): in (*StreamDict).decodeLength the bounded call fi.DecodeLength(b, maxLen) is reached only
+// for the last filter of the pipeline (idx == len(FilterPipeline)-1); earlier stages decode completely. Bounding an
+// intermediate stage truncates the *encoded* input of the next one.
+func checkPipelineBoundLastStage(c *Ctx) {
+	p, r := c.P, c.R
+	fid := "pkg/pdfcpu/types.(*StreamDict).decodeLength"
+	fn := p.Func(fid)
+	if fn == nil {
+		r.Bad("C16.R5", fid, "anchor", "", "UNRESOLVED-ANCHOR")
+		return
+	}
+	var maxLen *ssa.Parameter
+	for _, prm := range fn.Params {
+		if prm.Name() == "maxLen" {
+			maxLen = prm
+		}
+	}
+	// edges on which idx == len(pipeline)-1
+	genE := map[Edge][]string{}
+	eachInstr(fn, func(_ *ssa.BasicBlock, _ int, i ssa.Instruction) {
+		b, ok := i.(*ssa.BinOp)
+		if !ok || (b.Op != token.EQL && b.Op != token.NEQ) {
+			return
+		}
+		isLast := func(v ssa.Value) bool {
+			sub, ok := v.(*ssa.BinOp)
+			if !ok || sub.Op != token.SUB {
+				return false
+			}
+			if k, ok := constInt(sub.Y); !ok || k != 1 {
+				return false
+			}
+			la := lenArgOf(sub.X)
+			return la != nil && strings.HasSuffix(fieldPath(la), "FilterPipeline")
+		}
+		if !isLast(b.X) && !isLast(b.Y) {
+			return
+		}
+		for _, e := range condEdges(b, b.Op == token.EQL) {
+			genE[e] = append(genE[e], "last")
+		}
+	})
+	ff := NewFactFlow(fn, nil, genE, nil, nil)
+	n := 0
+	eachInstr(fn, func(_ *ssa.BasicBlock, _ int, i ssa.Instruction) {
+		call, ok := i.(*ssa.Call)
+		if !ok || !call.Call.IsInvoke() || call.Call.Method.Name() != "DecodeLength" {
+			return
+		}
+		n++
+		construct := fmt.Sprintf("DecodeLength#%d", n)
+		arg := call.Call.Args[len(call.Call.Args)-1]
+		if k, isC := constInt(arg); isC && k < 0 {
+			r.OK("C16.R5", fid, construct, p.Pos(call.Pos()), "unbounded stage (constant negative length)", false)
+			return
+		}
+		if maxLen != nil && arg != ssa.Value(maxLen) {
+			r.Bad("C16.R5", fid, construct, p.Pos(call.Pos()), "the bounded stage does not receive the caller's maxLen")
+			return
+		}
+		if ff.Holds(i, "last") {
+			r.OK("C16.R5", fid, construct, p.Pos(call.Pos()), "the bounded DecodeLength is reached only for idx == len(FilterPipeline)-1", true)
+		} else {
+			r.Bad("C16.R5", fid, construct, p.Pos(call.Pos()), "a pipeline stage other than the last can be decoded with the caller's bound: its truncated output is the next stage's encoded input, so bounded decoding no longer yields a prefix of the full decoding")
+		}
+	})
+	if n == 0 {
+		r.Bad("C16.R5", fid, "DecodeLength", p.Pos(fn.Pos()), "UNRESOLVED-ANCHOR: no DecodeLength call in the pipeline loop")
+	}
 }
